@@ -352,6 +352,15 @@ def nonempty_atom(text, name):
     return v1
 
 
+def static_const(repo, module, e, _depth=0):
+    """The Constant a Name / dotted name statically denotes (a module-level constant of this or another module), else e itself."""
+    if isinstance(e, (ast.Name, ast.Attribute)) and _depth < 4:
+        r = repo.resolve_expr_static(module, e)
+        if r and r[0] == 'var' and r[1] is not None:
+            return static_const(repo, r[3], r[1], _depth + 1)
+    return e
+
+
 def dtext(sym):
     """Canonical text of a (displayed) string expression: locals holding fresh displays expanded, every string-building form
     (join of a display, format, f-string, %) rewritten as a `+` chain."""
